@@ -23,6 +23,7 @@
   between `load3`/`load2` and the real loader in both directions.
 -/
 import BVM.Proofs.SchemaSem
+import BVM.Proofs.Bridge
 import BVM.Gen.Schemas
 namespace BVM
 
@@ -174,6 +175,11 @@ theorem accepted_passed_every_stage (store : Store) (W : World) (fuel : Nat) (cf
     | _ => simp at h
   | _ => simp at h
 
+/-- the effective node of an accepted document is the one the expansion model (C11, C12) gives: the loader
+    model with its schema stages and the expansion model agree on everything that is accepted -/
+theorem accepted_effective_is_expansion (store : Store) (W : World) (fuel : Nat) (cfg e : KVs)
+    (h : load3 store W fuel cfg = .ok e) : expand3 W fuel cfg = .ok e := load3_ok_expand3 store W fuel cfg e h
+
 /-! ### non-vacuity -/
 
 example : validate Gen.store 8 (.ref (K_common "int-ft-size-prop")) (.int 64) = some true := by decide +kernel
@@ -205,3 +211,4 @@ end BVM
 #print axioms BVM.member_names_distinct
 #print axioms BVM.id_width
 #print axioms BVM.accepted_passed_every_stage
+#print axioms BVM.accepted_effective_is_expansion
